@@ -42,7 +42,7 @@ _THREAD_BASE = [0, 0.0]
 
 def _cap_threads():
     """a library that spins may start a timer / delayed-send thread per iteration (REAL threads in the generic runners):
-    past 1,500 live threads the run is the hang it would be reported as anyway, and must not take the machine with it"""
+    past 12,000 live threads the run is the hang it would be reported as anyway, and must not take the machine with it"""
     import threading
     if getattr(threading.Thread.start, "_xsm_capped", False):
         return
@@ -53,7 +53,7 @@ def _cap_threads():
         #  same worker process - hour-long delayed sends - must not count against this one)
         n = threading.active_count()
         fresh = time.time() - _THREAD_BASE[1] < 120        # a baseline taken by the run in progress (runners that take none: absolute cap)
-        if (n - _THREAD_BASE[0] > 1500) if fresh else (n > 8000):
+        if (n - _THREAD_BASE[0] > 12000) if fresh else (n > 20000):
             _HUNG[0] = True
             raise Hang()
         return orig(self, *a, **k)
